@@ -150,6 +150,7 @@ class Child:
 
         disk = diskmod.Disk(self.root, die)
         disk.on_pause = pause
+        disk.order_seed = seed
         diskmod.install(disk)
         module = __import__(optable, fromlist=['OPS'])
         ops = module.OPS
@@ -162,10 +163,10 @@ class Child:
             disk.begin(crash, pause)
             try:
                 value = ops[name](ctx, **args)
-                reply = ('ok', value, None, disk.end(), {'listings': disk.listings})
+                reply = ('ok', value, None, disk.end(), {'listings': disk.listings, 'permuted': disk.permuted})
             except Exception as err:  # pylint: disable=broad-except
                 reply = ('exc', f'{type(err).__name__}: {err}'[:500], type(err).__name__, disk.end(),
-                         {'listings': disk.listings})
+                         {'listings': disk.listings, 'permuted': disk.permuted})
             _send(wfd, reply)
 
     def call(self, name: str, args: typing.Optional[dict] = None, crash: typing.Optional[dict] = None,
